@@ -132,18 +132,7 @@ def run(ck):
     meths = m.methods("TranslatorZ3")
     for k in KINDS:
         ck.ob("R2", "from_%s" % k, "from_" + k in meths, m.where(cls), "TranslatorZ3 has no from_%s" % k)
-    f = meths["from_ExprSlice"]
-    ok = any(isinstance(c, ast.Call) and dotted(c.func) == "z3.Extract" and [norm(a).replace(" ", "") for a in c.args[:2]] == ["expr.stop-1", "expr.start"] for c in walk_body(f))
-    ck.ob("R2", "slice:extract", ok, m.where(f), "a slice must be Extract(stop-1, start, arg)")
-    f = meths["from_ExprCompose"]
-    ok = any(isinstance(c, ast.Call) and dotted(c.func) == "z3.Concat" and [norm(a) for a in c.args] == ["e", "res"] for c in walk_body(f)) and \
-        any(isinstance(l, ast.For) and norm(l.iter) == "expr.args" for l in walk_body(f))
-    ck.ob("R2", "compose:later-high", ok, m.where(f), "later compose arguments must be concatenated on the high side: Concat(new, accumulated)")
-    f = meths["from_ExprCond"]
-    ok = any(isinstance(c, ast.Call) and dotted(c.func) == "z3.If" and [norm(a) for a in c.args] == ["cond != 0", "src1", "src2"] for c in walk_body(f)) and \
-        any(isinstance(n, ast.Assign) and norm(n.targets[0]) == "src1" and norm(n.value) == "self.from_expr(expr.src1)" for n in walk_body(f)) and \
-        any(isinstance(n, ast.Assign) and norm(n.targets[0]) == "src2" and norm(n.value) == "self.from_expr(expr.src2)" for n in walk_body(f))
-    ck.ob("R2", "cond:nonzero-selects-src1", ok, m.where(f), "a conditional must be If(cond != 0, src1, src2)")
+    _cmp.structure_rules(ck, "R2", "z3", m.where(cls))
     f = meths["from_ExprInt"]
     ok = any(isinstance(n, ast.Return) and norm(n.value) == "z3.BitVecVal(int(expr), expr.size)" for n in walk_body(f))
     ck.ob("R2", "int", ok, m.where(f), "a constant must be BitVecVal(value, size)")
@@ -152,15 +141,4 @@ def run(ck):
     ck.ob("R2", "mem", ok, m.where(f), "a memory read must be mem.get(translated pointer, size)")
 
     # ---------------------------------------------------------------- R3
-    g = m.func("Z3Mem.get")
-    for n in walk_body(g):
-        if isinstance(n, ast.If) and norm(n.test) == "self.is_little_endian()":
-            le = norm(ast.Module(body=n.body, type_ignores=[])).replace(" ", "")
-            be = norm(ast.Module(body=n.orelse, type_ignores=[])).replace(" ", "")
-            ck.ob("R3", "Z3Mem.get:little", "res=z3.Concat(self[addr+i],res)" in le and "foriinrange(1,size//8):" in le, m.where(n),
-                  "little endian: byte i must be concatenated above the bytes already read")
-            ck.ob("R3", "Z3Mem.get:big", "res=z3.Concat(res,self[addr+i])" in be and "foriinrange(1,size//8):" in be, m.where(n),
-                  "big endian: byte i must be concatenated below the bytes already read")
-    le = m.func("Z3Mem.is_little_endian")
-    ok = any(isinstance(n, ast.Return) and norm(n.value) == "self.endianness == '<'" for n in walk_body(le))
-    ck.ob("R3", "Z3Mem.is_little_endian", ok, m.where(le), "little endian is selected by '<'")
+    _cmp.memory_rules(ck, "R3", "z3", m.where(m.func("Z3Mem.get")))
